@@ -315,7 +315,51 @@ def delegated(ctx):
     internal 'all subkeys should be hybridized' error of h_encaps is unreachable)."""
     from . import c08, c11
     c08.verify_first(ctx)
+    # "refresh ... fails for a forged user key": the MAC it is checked against covers id, rights and secrets
+    c08.mac_covers(ctx)
+    c08.mac_covers_every_element(ctx)
     c11.selection(ctx)
+
+
+LOOKUPS = r'::(contains_key|get|get_mut|get_key_value|entry|insert|remove|contains|get_latest|get_latest_mut)$'
+# (function, error variant): the documented failure is decided by a lookup in the receiver's own container
+SELF_LOOKUP_ROWS = [
+    ('abe_policy::dimension::Dimension::add_attribute', 'OperationNotPermitted'),
+    ('abe_policy::dimension::Dimension::add_attribute', 'AttributeNotFound'),
+    ('abe_policy::access_structure::AccessStructure::add_anarchy', 'ExistingDimension'),
+    ('abe_policy::access_structure::AccessStructure::add_hierarchy', 'ExistingDimension'),
+]
+
+
+@rule('C09', 'failure-decided-by-own-lookup')
+def failure_decided_by_own_lookup(ctx):
+    """'adding a duplicate dimension or attribute ... fails': the branch that raises the error tests membership in the
+    structure being edited (a lookup whose receiver is rooted at `self`), not in a partial copy built on the way — a duplicate
+    that sits outside the copy would be accepted and silently re-ranked."""
+    from .c02 import root_descr
+    F = ctx.F
+    n = 0
+    for (fn, variant) in SELF_LOOKUP_ROWS:
+        body = F.fn(fn)
+        exits = [e for fb in lib.family_ext(F, fn) for e in lib.error_exits(fb) if e.kind == 'explicit' and e.variant == variant and fb is body]
+        for e in exits:
+            n += 1
+            ok = False
+            for sb in sorted(body.live_blocks()):
+                t = body.term(sb)
+                if t['k'] != 'switch' or len(body.succs[sb]) < 2 or e.b not in body.reach(sb):
+                    continue
+                if not any(body.edge_dominates((sb, s), e.b) for s in body.succs[sb]):
+                    continue
+                sl = backward_slice(body, [t['d']], follow_mutarg=False)
+                for c in sl.has_call(LOOKUPS):
+                    if c.args and any(r[0] == 'param' and r[1] == 1 for r in root_descr(body, c.args[0])):
+                        ok = True
+            ctx.check(ok, fn, '%s decided by a lookup in self' % variant,
+                      'the %s raised at line %d is not decided by a membership test on the structure being edited (the test looks '
+                      'into something else, e.g. a partial copy): some duplicates / unknown names are accepted' % (variant, e.ln),
+                      'controlled by a lookup rooted at self', body.where(e.ln))
+    ctx.floor(n, 5, 'documented membership failures of the structure edits')
 
 
 @rule('C09', 'rekey-guard-polarity', configs=('default', 'p256'))
